@@ -86,7 +86,7 @@ def gen_call(rng, P, mod, depth, scope, ids, ctor=None, width=None):
         call["single"] = rng.choice(seqs)
         call["list"] = pick(tensors + seqs, 0, 3)
     else:
-        call["cond"] = rng.choice(["top", "constTrue", "constFalse"])
+        call["cond"] = rng.choice(["top"] + [x for x in P.IF_COND[1:]])
         call["n"] = rng.choice([1, 1, 2, 3])
     presc = P.prescription(case_like(call))
     call["bodies"] = {}
@@ -145,6 +145,29 @@ def gen_programs(rng, P, mods, n_random, depth3):
     return progs
 
 
+FAIL_BEHS = ["notCallable", "nonIterable", "hasNonVar", "hasNestedVars", "badArity", "raises"]
+
+
+def add_failing(rng, progs, n):
+    """copies of programs in which exactly one body (at any depth) is malformed in one of the six ways"""
+    import copy
+
+    out = []
+    pool = [p for p in progs if len(list(all_bodies(p["call"]))) >= 2]
+    for k in range(n):
+        p = copy.deepcopy(pool[(k * 7) % len(pool)])
+        bodies = [b for b, *_ in all_bodies(p["call"])]
+        b = bodies[rng.randrange(len(bodies))] if k % 3 else bodies[-1]
+        b["fail"] = FAIL_BEHS[k % len(FAIL_BEHS)]
+        for bb in bodies:
+            if bb.get("form") == "lru_cache" or bb is b:
+                bb["form"] = None
+        p["ambient"] = None
+        p["failing"] = True
+        out.append(p)
+    return out
+
+
 def all_bodies(call, depth=1, parent=None):
     """pre-order: (body, call, role, depth, parent body id)"""
     for role in ROLES[call["ctor"]]:
@@ -163,6 +186,10 @@ def all_calls(call):
 
 def tuplify(x):
     return tuple(tuplify(y) for y in x) if isinstance(x, (list, tuple)) else x
+
+
+class _NestBoom(Exception):
+    pass
 
 
 def P_ambient(env, name, op):
@@ -221,7 +248,9 @@ def run_program(env, prog, steps=STEPS):
         elif ctor == "sequence_map":
             outs = f(values[tuplify(call["single"]["ref"])], lst, body=cbs["body"])
         else:
-            c = b_arg if call["cond"] == "top" else op.const(np.array(call["cond"] == "constTrue"))
+            from harness.props import c19 as P_
+
+            c = b_arg if call["cond"] == "top" else P_.known_value(env, op, *P_.split_known(call["cond"]))
             outs = f(c, then_branch=cbs["then_branch"], else_branch=cbs["else_branch"])
         outs = list(outs)
         call_outs.append((call, len(outs)))
@@ -247,6 +276,15 @@ def run_program(env, prog, steps=STEPS):
                 if v is not None:
                     acc = op.add(acc, summ(v))
             ctor = call["ctor"]
+            fl = b.get("fail")
+            if fl == "raises":  # (after its inner calls ran)
+                raise _NestBoom("nested callback raised")
+            if fl == "nonIterable":
+                return 5
+            if fl == "hasNonVar":
+                return [acc, 3]
+            if fl == "hasNestedVars":
+                return [[acc, acc]]
             if ctor == "if_":
                 return [acc, op.const(np.float32(1)), op.identity(acc)][: b["n"]]
             if ctor == "loop":
@@ -255,6 +293,12 @@ def run_program(env, prog, steps=STEPS):
                 return list(args[: len(call["list"]) - call["m"]]) + [acc]
             return (x for x in [acc])  # SequenceMap: a one-shot result
 
+        if b.get("fail") == "notCallable":
+            return "not a function"
+        if b.get("fail") == "badArity":
+            from harness import lib_c19forms as forms
+
+            return forms.make_form("too_many", fun, len(b["types"]))
         if b.get("form"):
             from harness import lib_c19forms as forms
 
@@ -343,6 +387,18 @@ def judge(P, prog, obs):
         if c > max(expect, 1) or (ok and c != expect):
             bad.append((f"{call['ctor']}:nested:depth{depth}:count={c}",
                         f"{role} of a {call['ctor']} at depth {depth} invoked {c} times during the outermost constructor call (its parent body ran {expect}x)"))
+    # -- a malformed callback at any depth: TypeError at the (outermost) call; the callback's own exception as is
+    failing = [(b, call, depth) for b, call, _r, depth, _p in bodies if b.get("fail")]
+    if failing:
+        b, call, depth = failing[0]
+        res = obs["result"]
+        want = "_NestBoom" if b["fail"] == "raises" else "TypeError"
+        got = res[1] if res[0] == "err" else "no exception"
+        if got != want and b["fail"] != "raises":
+            bad.append((f"{call['ctor']}:nested:bad-callback:{b['fail']}:{got}",
+                        f"a {b['fail']} callback of a {call['ctor']} at depth {depth}: expected TypeError at the call, got {got}"))
+        if b["fail"] in ("notCallable", "badArity") and counts.get(b["id"], 0) != 0:
+            bad.append((f"{call['ctor']}:nested:bad-callback:{b['fail']}:entered", "a callback that cannot be called was entered"))
     # -- prescribed arguments
     for bid, types in obs["events"]:
         b, call, role, depth, parent = by_id[bid]
@@ -411,6 +467,17 @@ def model_call(call):
     for role in ROLES[call["ctor"]]:
         b = call["bodies"][role]
         cbs[role] = {"id": b["id"], "n": b["n"], "inner": [model_call(ic) for ic in b["inner"]]}
+        fl = b.get("fail")
+        if fl in ("notCallable", "nonIterable", "raises"):
+            cbs[role]["beh"] = fl
+        elif fl in ("hasNonVar", "hasNestedVars"):
+            cbs[role]["beh"] = "hasNonVar"
+            cbs[role]["elems"] = ["var", "nonVar"] if fl == "hasNonVar" else ["seqOfVars"]
+        elif fl == "badArity":
+            from harness import lib_c19forms as forms
+
+            cbs[role]["beh"] = "vars"
+            cbs[role]["sig"] = forms.sig_of("too_many", len(b["types"]))
     return {"mod": call["mod"], "ctor": call["ctor"], "lists": c["lists"], "singles": c["singles"], "ints": c["ints"], "cbs": cbs}
 
 
@@ -421,6 +488,17 @@ def model_request(prog, steps):
 def compare(prog, obs, m, steps):
     if m is None or "error" in m:
         return f"model error: {m}"
+    if prog.get("failing"):
+        mr = m.get("result", {})
+        want = {"TypeError": "TypeError", "Other": "_NestBoom", "AttributeError": "AttributeError"}.get(mr.get("err"), "no exception")
+        got = obs["result"][1] if obs["result"][0] == "err" else "no exception"
+        if want != got:
+            return f"model: {mr}, real: {obs['result']}"
+        real = [[bid, ts] for bid, ts in obs["events"]]
+        model = [[e["cb"], e["types"]] for e in m["events"]]
+        if real != model and not any(c["ctor"] == "if_" for c in all_calls(prog["call"])):
+            return f"events of the failing call differ: real={real} model={model}"
+        return None
     if obs["result"][0] != "ok":
         return None  # the constructor rejected the program after (some of) its callbacks ran: not modelled
     real = [[bid, ts] for bid, ts in obs["events"]]
